@@ -27,6 +27,8 @@ type GenOpts struct {
 	GateCommits bool
 	GateAcks    bool // the source plugin takes its acks at scheduler-chosen instants
 	Holds       bool // a destination or the DLQ stops answering at some record (first run only)
+	Hostile     bool // C09: one hostile reply shape of a connector or processor per case
+	FreeSched   int  // percentage of cases that run with the boundary scheduler switched off
 
 	// DLQ window: if Unlimited the window never stops the pipeline.
 	UnlimitedDLQ bool
@@ -103,6 +105,7 @@ func GenCase(t *rapid.T, o GenOpts) *Case {
 		MaxRetries: retries[rapid.IntRange(0, len(retries)-1).Draw(t, "retries")]}
 	c.GateCommits = o.GateCommits && chance(t, "gatecommits", 40)
 	c.GateSrcAcks = o.GateAcks && chance(t, "gateacks", 35)
+	c.FreeSched = o.FreeSched > 0 && chance(t, "freesched", o.FreeSched)
 	c.GateCallbacks = o.GateCommits && chance(t, "gatecallbacks", 40)
 
 	nsrc := rapid.IntRange(1, max(1, o.MaxSources)).Draw(t, "nsrc")
@@ -315,6 +318,50 @@ func GenCase(t *rapid.T, o GenOpts) *Case {
 			f.KeyPrefix = "connector:instance:"
 		}
 		c.StoreFaults = append(c.StoreFaults, f)
+	}
+
+	if o.Hostile && chance(t, "hostile", 75) {
+		si := Uniform(t, "hostsrc", nsrc)
+		q := 0
+		if ns[si] > 0 {
+			q = Uniform(t, "hostseq", ns[si])
+		}
+		needProc := func() *ProcSpec {
+			if len(c.Procs) == 0 {
+				c.Procs = append(c.Procs, ProcSpec{ID: "proc0", Parent: "", Workers: 1, Gen: 1, PerRecord: map[string]string{}})
+			}
+			p := &c.Procs[Uniform(t, "hostproc", len(c.Procs))]
+			if p.PerRecord == nil {
+				p.PerRecord = map[string]string{}
+			}
+			return p
+		}
+		kinds := []string{"dst-wrong-position", "dst-extra-ack", "src-empty-position", "src-duplicate-position",
+			"proc-nil-result", "proc-surplus-result", "proc-multi0", "proc-multi1", "proc-changes-position"}
+		c.Hostile = kinds[Uniform(t, "hostkind", len(kinds))]
+		switch c.Hostile {
+		case "dst-wrong-position":
+			c.Dests[Uniform(t, "hostdst", ndst)].PerPiece[Key(si, q, 0)] = OutWrongPos
+		case "dst-extra-ack":
+			c.Dests[Uniform(t, "hostdst", ndst)].PerPiece[Key(si, q, 0)] = OutExtra
+		case "src-empty-position":
+			c.Sources[si].EmptyPosAt = q
+		case "src-duplicate-position":
+			if q == 0 && ns[si] > 1 {
+				q = 1
+			}
+			c.Sources[si].DupPosAt = q
+		case "proc-nil-result":
+			needProc().PerRecord[Key(si, q, 0)] = KNil
+		case "proc-surplus-result":
+			needProc().PerRecord[Key(si, q, 0)] = KSurplus
+		case "proc-multi0":
+			needProc().PerRecord[Key(si, q, 0)] = KMulti0
+		case "proc-multi1":
+			needProc().PerRecord[Key(si, q, 0)] = KMulti1
+		case "proc-changes-position":
+			needProc().PerRecord[Key(si, q, 0)] = KChangePos
+		}
 	}
 
 	if len(o.ClientKinds) > 0 && chance(t, "clientp", int(o.ClientProb*100)) {
